@@ -29,7 +29,7 @@ CONFIGS = [("synchronous", None), ("threads", 1), ("threads", 2), ("threads", 4)
 # ------------------------------------------------------------------ generator
 def gen_case(rng, mode=None, stochastic=None, custom_kind=None):
     case = c05.gen_case(rng, mode=mode, with_dask=True,
-                        flavour=rng.choice(["plain", "plain", "vectors", "two_models_same_arg", "same_model_two_groups",
+                        flavour=rng.choice(["plain", "fine", "vectors", "two_models_same_arg", "same_model_two_groups",
                                             "field_vs_arg"]), max_runs=12)
     if case["mode"] == "custom":
         # the parallel path's own conversion of the table: single-placeholder lists and shifted column ranges
@@ -145,9 +145,9 @@ def expected(case, assignment):
 # ------------------------------------------------------------------ the statement on the implementation
 def failure_class(case):
     if case["mode"] == "custom" and case.get("col_start", 0) > 0:
-        return "custom-mode:column_range-start>0:dask-path-addresses-columns-by-label"
+        return "custom-mode:column_range-start>0"
     if case["mode"] == "custom" and any(p["enabled"] and p["width"] == 1 for p in case["params"]):
-        return "custom-mode:single-placeholder-list:scalar-on-dask-path"
+        return "custom-mode:single-placeholder-list"
     return None
 
 
